@@ -579,6 +579,11 @@ skiplist_iter_next(qb_map_iter_t * i, void **value)
 static void
 skiplist_iter_free(qb_map_iter_t * i)
 {
+	struct skiplist_iter *si = (struct skiplist_iter *)i;
+
+	if (si->n) {
+		skiplist_node_deref(si->n, (struct skiplist *)i->m);
+	}
 	free(i);
 }
 
